@@ -1220,9 +1220,11 @@ def transform(fn, proceed, to_instrument=True, set_conformer=True):
     freevars = fn.__code__.co_freevars
     new_fn = _compile(filename, new_tree, freevars)
 
+    # Define the new function in a scratch namespace (its globals are still
+    # glb): the module's own names are never rebound, not even temporarily.
     fname = fn.__name__
-    save = glb.get(fname, None)
-    exec(new_fn, glb, glb)
+    scratch = {}
+    exec(new_fn, glb, scratch)
 
     try:
         from codefind import code_registry
@@ -1233,20 +1235,17 @@ def transform(fn, proceed, to_instrument=True, set_conformer=True):
         pass
 
     # Get the new function (populated with exec)
-    if "#WRAP" in glb:
+    if "#WRAP" in scratch:
         # If the function is a closure, we have created a function
         # called #WRAP that takes the closure variables as arguments
         # and returns the function that interests us.
-        actual_fn = glb.pop("#WRAP")(
+        actual_fn = scratch["#WRAP"](
             *[cell.cell_contents for cell in fn.__closure__]
         )
     else:
-        actual_fn = glb[fname]
+        actual_fn = scratch[fname]
 
     glb[fnsym] = actual_fn
-
-    # However, we don't want to change the existing mapping of fn
-    glb[fname] = save
 
     all_vars = transformer.used | transformer.assigned
 
